@@ -22,6 +22,19 @@ def main() -> int:
         for p, r in zip(files, ex.map(one, files)):
             if r:
                 bad.append(r)
+    # typed modules for Apalache live in spec/apalache (they EXTEND Apalache, which SANY alone does not know)
+    import shutil
+    import subprocess
+    import tempfile
+    for p in sorted(glob.glob(os.path.join(tlc.SPEC_DIR, "apalache", "*.tla"))):
+        out = tempfile.mkdtemp(prefix="vapa_")
+        try:
+            r = subprocess.run(["apalache-mc", "typecheck", f"--out-dir={out}", p], cwd=out, capture_output=True, text=True, timeout=600)
+            files.append(p)
+            if r.returncode != 0:
+                bad.append(f"apalache typecheck failed on {p}:\n{r.stdout[-2000:]}")
+        finally:
+            shutil.rmtree(out, ignore_errors=True)
     for b in bad:
         print(b)
     print(f"setup: {len(files)} modules parsed, {len(bad)} failed")
